@@ -196,8 +196,15 @@ func C07(r *drv.Run) {
 		}
 		var paths []string
 		var texts [][]byte
-		for _, k := range set {
-			paths = append(paths, files[k].path)
+		for n, k := range set {
+			pth := files[k].path
+			switch (i + n) % 3 {
+			case 1: // the same file under another legal spelling of its path
+				pth = filepath.Dir(pth) + "/./" + filepath.Base(pth)
+			case 2:
+				pth = filepath.Dir(pth) + "//" + filepath.Base(pth)
+			}
+			paths = append(paths, pth)
 			texts = append(texts, files[k].content)
 		}
 		c := wire.Case{Op: "runfiles", Src: []byte(src), Files: paths, Mode: "NOTHING", Texts: texts, StepBudget: 30_000_000}
